@@ -144,6 +144,24 @@ theorem single_byte_corruption_only_appended (seq : Nat) (es : List Entry) (p v 
   rw [hk] at hx
   exact List.mem_of_mem_take hx
 
+/-- the damage classes of the property for which NOTHING is assumed any more: every truncation; one
+    byte replaced anywhere outside an entry's length field; a cut at an entry boundary followed by a
+    zero-filled tail of any length -/
+def DamagedProved (seq : Nat) (es : List Entry) (img : Bytes) : Prop :=
+  (∃ n, img = (fileImage .v2 seq es).take n) ∨
+  (∃ p v, p < (fileImage .v2 seq es).length ∧ v < 256 ∧ ¬ InLengthField es p ∧ img = (fileImage .v2 seq es).set p v) ∨
+  (∃ k m, img = fileImage .v2 seq (es.take k) ++ List.replicate m 0)
+
+/-- `C10_only_appended` for CRC-32 on those classes: whatever recovery returns from the damaged
+    file was appended to it, bit-identical (current format, executable CRC-32, no hypothesis) -/
+theorem only_appended_crc32 (seq : Nat) (es : List Entry) (img : Bytes)
+    (hs : seq < 2 ^ 64) (hok : AllOk .v2 crc32 es) (hb : ∀ e ∈ es, ∀ x ∈ e.data, x < 256)
+    (hd : DamagedProved seq es img) : ∀ x ∈ fileEntries .v2 crc32 img, x ∈ es := by
+  rcases hd with ⟨n, rfl⟩ | ⟨p, v, hp, hv, hnl, rfl⟩ | ⟨k, m, rfl⟩
+  · exact (only_appended_v2 crc32 seq es hs hok).1 n
+  · exact single_byte_corruption_only_appended seq es p v hs hok hb hp hv hnl
+  · exact (only_appended_v2 crc32 seq es hs hok).2.1 k m
+
 -- non-vacuity: two entries; position 21 is the second stamp byte of the first entry (the very flip
 -- the old format accepted: stamp 5 -> 261)
 example : AllOk .v2 crc32 [Entry.mk' .v2 crc32 [7] 5, Entry.mk' .v2 crc32 [1, 2] 9] := by decide +kernel
